@@ -1,3 +1,4 @@
+import struct
 from typing import List
 from itertools import chain
 from binascii import hexlify
@@ -330,7 +331,10 @@ class Script:
         return cls(source, template_hint=template)
 
     def parse(self, template_hint=None):
-        tokens = self.tokens
+        try:
+            tokens = self.tokens
+        except struct.error:
+            raise ValueError(f'Malformed push in script: {hexlify(self.source)}')
         if not tokens and not template_hint:
             template_hint = self.NO_SCRIPT
         for template in chain((template_hint,), self.templates):
